@@ -20,7 +20,10 @@ int main() {
         for (size_t i = 0; i < n; ++i) { std::string s; in >> s; P[i] = Integer(s.c_str()); }
         for (size_t i = 0; i < n; ++i) { std::string s; in >> s; R[i] = Integer(s.c_str()); }
         Integer V("987654321987654321987654321"), dump;
-        FX* A = new FX(P);
+        std::vector<Integer>* tmp = new std::vector<Integer>(P);
+        FX* A = new FX(*tmp);
+        for (size_t i = 0; i < n; ++i) (*tmp)[i] = Integer(1);
+        delete tmp;
         if (hist == "copycold") { FX B(*A); delete A; B.RnsToRing(V, R); }
         else if (hist == "copywarm") { A->RnsToRing(dump, ones); FX B(*A); delete A; B.RnsToRing(V, R); }
         else if (hist == "copy2") { A->RnsToRing(dump, ones); FX* B = new FX(*A); delete A; FX C(*B); delete B; C.RnsToRing(V, R); }
